@@ -684,6 +684,15 @@ theorem listen_addrs (cfg : AddrCfg) (hcfg : Nrf.Props.C04.CfgOk cfg) (y : List 
 def _root_.Nrf.Radio.withRx (r : Radio) (fifo : List RxEntry) (last : LastRx) : Radio :=
   { r with rxFifo := fifo, flags := r.flags ||| 0x40, rpd := true, lastRx := some last, lastAck := none }
 
+/-- storing one payload with a pipe number 0..5 keeps the node-radio predicate -/
+theorem _root_.Nrf.NodeRadio.withRx {L : LinkCfg} {P : List Bytes} {rx ce : Bool} {aa : Nat} {d : Rf24} {r : Radio}
+    (h : NodeRadio L P rx ce aa d r) (p : Nat) (data : Bytes) (last : LastRx) (hp : p ≤ 5) :
+    NodeRadio L P rx ce aa d (r.withRx [{ pipe := p, data := data }] last) :=
+  h.of_eq_cfg rfl (by
+    intro e he
+    have : e = { pipe := p, data := data } := by simpa [Radio.withRx] using he
+    rw [this]; exact hp)
+
 /-- the state `write()` hands to `_write`: two ids consumed, `frame_buf` = the private copy -/
 def prepared (s : NetState) (c : Frame) : NetState :=
   ({ s with nextId := (((s.nextId + 1) &&& 0xFFFF) + 1) &&& 0xFFFF } : NetState).setNode
